@@ -208,6 +208,8 @@ def wl_C13(rng, w, cfg, index):
         progs.append(gen.prog_history(kit, a, 'd%d' % a, elems[a], c))
     if rng.random() < 0.4:
         progs.append(prog_copier(kit, nact, 'd0', 'd%d' % nact, cfg))
+    for j in range(rng.choice([0, 0, 1, 2, 3])):
+        progs.append(prog_attrs(kit, 5 + j, 'x%d' % j, cfg))
 
     def program():
         if rng.random() < 0.5:
@@ -820,7 +822,7 @@ def wl_C17(rng, w, cfg, index):
             pk, pb = prior if prior else rng.choice(priors)
             if pb is not None:
                 pre.append({'op': 'FAULT', 'kind': 'fs.prior', 'params': {'path': path, 'hex': pb.hex()}})
-            body = [dict(o, path=path) if o['op'] == 'WRITE' else o for o in ops]
+            body = [dict(o, path=path) if o['op'] in ('WRITE', 'PARSE') else o for o in ops]
             return {'case': pre + body + [{'op': 'FSSTATE', 'path': path}], 'label': label + '/' + pk + '/' + (enc or 'utf-8')}
 
         W = {'op': 'WRITE', 'a': 0, 'doc': 'd0', 'path': '?', 'ic': False}
@@ -859,6 +861,11 @@ def wl_C17(rng, w, cfg, index):
         yield case('fs.readonly', [{'op': 'FAULT', 'kind': 'fs.readonly', 'params': {'path': 'out%d.xml' % nn}}, dict(W)], priors[2])
         nn = n + 1
         yield case('fs.is_dir', [{'op': 'FAULT', 'kind': 'fs.is_dir', 'params': {'path': 'out%d.xml' % nn}}, dict(W)], priors[0])
+        # 4b. parsing under every default encoding must give what it gives under UTF-8
+        for enc in encs[1:]:
+            yield case('parse', [dict(W), {'op': 'PARSE', 'a': 0, 'path': '?', 'doc': 'p0', 'c17ref': True},
+                                 {'op': 'FAULT', 'kind': 'fs.encoding', 'params': {'encoding': enc}},
+                                 {'op': 'PARSE', 'a': 0, 'path': '?', 'doc': 'p1', 'c17cmp': 'p0'}], priors[0], None)
         # 5. a broken node together with an injected encoding and an old score in place (the combination
         #    the property is about: the user's previous file is at stake)
         if nodes:
@@ -874,6 +881,8 @@ def wl_C09(rng, w, cfg, index):
     from .simfs import MOUNT
     corrupt = rng.random() < cfg.get('p_corrupt', 0.5)
     writer = 'library' if rng.random() < 0.4 else 'foreign'
+    if rng.random() < cfg.get('p_real', 0.06):
+        writer = 'real-world export'
     nonascii = rng.random() < 0.4
     size = rng.randint(4, cfg.get('max_size', 40))
 
@@ -890,6 +899,15 @@ def wl_C09(rng, w, cfg, index):
             if w.events[-1]['r'] != 'ok':
                 return
             valid = True       # C01 permitting; the model generated the tree
+        elif writer == 'real-world export':
+            # pinned excerpts of a real export shipped with the repository (validated against the XSD with
+            # xmllint when they were cut); small ones, the matcher is super-linear in the children of a measure
+            import os
+            name = rng.choice(['hello_world.xml', 'bach_partita_3_first2.xml', 'bach_partita_3_first2.xml', 'bach_partita_3_first6.xml']
+                              if cfg.get('big_real') else ['hello_world.xml', 'bach_partita_3_first2.xml'])
+            data = open(os.path.join(os.path.dirname(os.path.dirname(os.path.abspath(__file__))), 'spec', 'samples', name), 'rb').read()
+            yield {'op': 'FSPUT', 'path': 'f.xml', 'hex': data.hex()}
+            valid = True
         else:
             # half of the foreign documents use every attribute form the schema allows; the other half stay
             # away from the forms the pinned library is known to reject outright (xml:lang, xlink:*, name=,
@@ -901,7 +919,7 @@ def wl_C09(rng, w, cfg, index):
             enc = 'utf-8'
             yield {'op': 'FSPUT', 'path': 'f.xml', 'hex': text.encode(enc).hex()}
             valid = True
-        w.count('c09.documents.' + writer)
+        w.count('c09.documents.' + writer.split()[0])
         if rng.random() < 0.2:
             yield {'op': 'FAULT', 'kind': 'fs.encoding', 'params': {'encoding': rng.choice(['ascii', 'latin-1', 'cp1252'])}}
         n = len(w.fs.files.get(MOUNT + 'f.xml', b''))
@@ -1086,3 +1104,33 @@ def wl_C20probe(rng, w, cfg, index):
             if rng.random() < 0.15:
                 yield {'op': 'DEEPCOPY', 'a': 0, 'p': [doc], 'doc': doc + 'c'}
     return program(), {'shape': 'lazy-table probes'}
+
+
+def prog_attrs(kit, actor, doc, cfg):
+    """C13 attribute actor: an element of any of the 441 classes, attributes drawn from its own table and from
+    the tables of *other* types (siblings of an extension base, same-named attributes elsewhere), reads, serialise.
+    Whether a name is accepted must not depend on what other instances did before."""
+    rng = kit.rng
+    w = kit.w
+    elem = rng.choice(spec.ALL_ELEMENTS)
+    yield {'op': 'NEW', 'a': actor, 'doc': doc, 'c': {'name': elem, 'value': gen.default_value(elem), 'attrs': {}, 'xsd_check': True}}
+    if doc not in w.docs:
+        return
+    own = [a for a in spec.attributes_of_element(elem) if gen._attr_usable(a)]
+    pool = ['substitution', 'accelerate', 'beats', 'long', 'approach', 'departure', 'type', 'number', 'placement', 'bracket',
+            'show-number', 'line-shape', 'id', 'default-x', 'color', 'font-size']
+    for _ in range(rng.randint(2, 7)):
+        r = rng.random()
+        if own and r < 0.45:
+            a = rng.choice(own)
+            g, b = spec.exemplars(spec.attributes_of_element(elem)[a]['type'])
+            if g:
+                yield {'op': 'ATTR_SET', 'a': actor, 'p': [doc], 'name': spec.py_attr_name(a), 'value': rng.choice(g)}
+        elif r < 0.8:
+            a = rng.choice(pool)
+            yield {'op': 'ATTR_SET', 'a': actor, 'p': [doc], 'name': a.replace('-', '_'), 'value': rng.choice(['yes', 'no', 1, 2.5, 'x', 'above'])}
+        elif r < 0.9:
+            yield {'op': 'ATTR_GET', 'a': actor, 'p': [doc], 'name': rng.choice(pool).replace('-', '_')}
+        else:
+            yield {'op': 'TO_STRING', 'a': actor, 'p': [doc], 'ic': False}
+    yield {'op': 'READ', 'a': actor, 'p': [doc], 'which': 'attributes'}
